@@ -11,6 +11,7 @@ K2  TreeLikelihoodModel._call built from JSON with the substitution model's
 """
 from __future__ import annotations
 
+import os
 import itertools
 import math
 import sys
@@ -183,7 +184,7 @@ def k1_task(task, tr):
         def replay(vals):
             return k1_replay(kernel, topology, n, S, K, N, vals, st if tip_states else None)
 
-        cm.discharge(tr, d, [], goals, label, replay=replay, timeout=60.0, varnodes=V,
+        cm.discharge(tr, d, [], goals, label, replay=replay, timeout=60.0 * TSCALE, varnodes=V,
                      sig_prefix=f'{kernel}:', defined=False)
         tr.regions += 1
 
@@ -484,7 +485,7 @@ def k2_task(task, tr):
         def replay(vals):
             return k2_replay(topology, n, tree_kind, site_kind, tip_states, vals, second_round)
 
-        cm.discharge(tr, d, hyps, goals, label, replay=replay, timeout=60.0, varnodes=V,
+        cm.discharge(tr, d, hyps, goals, label, replay=replay, timeout=60.0 * TSCALE, varnodes=V,
                      sig_prefix='TreeLikelihoodModel._call:', defined=False)
         tr.regions += 1
 
@@ -567,6 +568,11 @@ def k2_replay(topology, n, tree_kind, site_kind, tip_states, vals, second_round=
 
 
 # ------------------------------------------------------------------ driver
+# thorough keeps ~100 tasks x 3 solver processes busy on 16 cores: wall-clock solver budgets are scaled so that
+# contention does not turn decidable goals into 'unknown'
+TSCALE = 3.0 if os.environ.get('VERIF_TIER') == 'thorough' else 1.0
+
+
 def run_task(task, tr):
     kind = task[0]
     if kind == 'K3':
